@@ -1234,12 +1234,13 @@ package stackage
 //@ modifies fresh, G_calls_len, G_calls_fn, G_calls_arg
 
 //@ func deenvelopeSingleStack
-//@ tags C16
+//@ tags C16,C04
 //@ safety C16
 //@ requires okslice(in, alloc)
 //@ ensures[C16:deenvelope] okslice(result, alloc) && (len(in) != 1 ==> result == in)
+//@ ensures[C04:deenvelope.flat] len(in) == 1 && !is_v_anys(in[0]) ==> result == in
 //@ modifies nothing
-//@ loop 1 invariant okslice(in, alloc) && (len(in0) != 1 ==> in == in0)
+//@ loop 1 invariant okslice(in, alloc) && (len(in0) != 1 ==> in == in0) && (len(in0) == 1 && !is_v_anys(in0[0]) ==> in == in0)
 
 //@ func marshalDefault
 //@ tags C16,C09,C11
@@ -1251,6 +1252,7 @@ package stackage
 //@ let known := lab == "LIST" || lab == "AND" || lab == "OR" || lab == "NOT" || lab == "BASIC"
 //@ ensures[C16:md.nolabel] len(in) >= 2 && !is_v_str(in[0]) ==> err != nil && x == nil && c == nil
 //@ ensures[C16:md.known] len(in) >= 2 && is_v_str(in[0]) && known ==> x != nil && ulen(x) == len(in) - 1 && F_nodeConfig_typ[cfgOf(x)] == ite(lab == "LIST", 0x04, ite(lab == "AND", 0x01, ite(lab == "NOT", 0x03, ite(lab == "OR", 0x02, 0x06))))
+//@ ensures[C04:md.known1] len(in) == 1 && is_v_str(in[0]) && known ==> x != nil && ulen(x) == 0 && F_nodeConfig_typ[cfgOf(x)] == kindOfLabel(lab)
 //@ ensures[C16:md.unknown] len(in) >= 2 && is_v_str(in[0]) && !known && lab != "CONDITION" ==> x != nil && ulen(x) == len(in) && F_nodeConfig_typ[cfgOf(x)] == 0x06
 //@ modifies fresh, G_calls_len, G_calls_fn, G_calls_arg
 //@ loop 1 invariant x != nil && wf(x) && fresh(x) && fresh(arr(hdr(x))) && 0 <= i
@@ -1378,6 +1380,9 @@ package stackage
 //@ requires okslice(in, alloc)
 //@ ensures[C16:ecv] c == nil || (cwf(c) && fresh(c))
 //@ ensures[C16,C04:ecv.fields] len(in) == 4 && is_v_str(in[1]) && !is_v_anys(in[3]) ==> c != nil && F_condition_kw[c] == str_of(in[1]) && F_condition_op[c] == ite(isOperator(in[2]) && acceptOp(in[2]), in[2], nil) && F_condition_ex[c] == ite(acceptEx(false, nil, in[3]), in[3], nil)
+//@ let ne := anys_of(in[3])
+//@ let nlab := toUpper(str_of(Mem_Val[arr(ne)][off(ne)]))
+//@ ensures[C04:ecv.nested] len(in) == 4 && is_v_str(in[1]) && is_v_anys(in[3]) && len(ne) >= 1 && is_v_str(Mem_Val[arr(ne)][off(ne)]) && (nlab == "LIST" || nlab == "AND" || nlab == "OR" || nlab == "NOT" || nlab == "BASIC") ==> c != nil && F_condition_kw[c] == str_of(in[1]) && isStackLike(F_condition_ex[c]) && stackOf(F_condition_ex[c]) != nil
 //@ modifies fresh, G_calls_len, G_calls_fn, G_calls_arg
 
 //@ func (*Stack).Marshal
